@@ -308,7 +308,8 @@ macro_rules! run_on {
                 ));
             }
         }
-        for call in 1..=2u32 {
+        // larger graphs (scale probes) are processed many times in a row: soak
+        for call in 1..=(if c.n >= 5 { 60u32 } else { 2 }) {
             *b.call.borrow_mut() = call;
             b.log.borrow_mut().clear();
             let out_ix = b.ix[c.out];
@@ -379,7 +380,7 @@ fn main() {
         let hist: Vec<Case> = v["history"].as_array().map(|a| a.iter().filter_map(Case::from_json).collect()).unwrap_or_default();
         ctx.finish_replay(run_with_history(&hist, &c));
     }
-    ctx.rule("every directed multigraph on n<=3 nodes with multiplicity 0..2 per ordered pair (self pairs included), every digraph with loops on 4 nodes (thorough: every loop-free digraph on 5 nodes) x every output node x container in {Graph, StableGraph, StableGraph with vacancies before/between/after/all (dummy nodes wired in and removed)} x 2 consecutive process calls on a processor reused across a whole chunk of the enumeration (256 graphs x outputs x containers; a violation's replay artefact carries the shortest suffix of that history with which it reproduces on a fresh processor); instrumented nodes log (node, call, own buffer ptr, per input ptr/len/value/call#); oracle: independent reverse reachability, multiset of in-edges by buffer identity, no self-alias, topological order and functional evaluation when the upstream subgraph is acyclic, sources()/sinks() == existing nodes without in/out edges; plus scale probes: 12 structured families (chains, stars, rings, complete DAG / digraph, tree, double edges, ...) on 5..=9 nodes; non-trivial = at least one edge, distinct by (graph, output, container)");
+    ctx.rule("every directed multigraph on n<=3 nodes with multiplicity 0..2 per ordered pair (self pairs included), every digraph with loops on 4 nodes (thorough: every loop-free digraph on 5 nodes) x every output node x container in {Graph, StableGraph, StableGraph with vacancies before/between/after/all (dummy nodes wired in and removed)} x 2 consecutive process calls (60 for the scale-probe graphs) on a processor reused across a whole chunk of the enumeration (256 graphs x outputs x containers; a violation's replay artefact carries the shortest suffix of that history with which it reproduces on a fresh processor); instrumented nodes log (node, call, own buffer ptr, per input ptr/len/value/call#); oracle: independent reverse reachability, multiset of in-edges by buffer identity, no self-alias, topological order and functional evaluation when the upstream subgraph is acyclic, sources()/sinks() == existing nodes without in/out edges; plus scale probes: 12 structured families (chains, stars, rings, complete DAG / digraph, tree, double edges, ...) on 5..=9 nodes; non-trivial = at least one edge, distinct by (graph, output, container)");
     // enumerate
     let mut graphs: Vec<(usize, Vec<u8>)> = Vec::new();
     for n in 1..=3usize {
